@@ -167,11 +167,12 @@ class StrVal:
 
 
 class Closure:
-    __slots__ = ("key", "captures")
+    __slots__ = ("key", "captures", "parent")
 
-    def __init__(self, key, captures):
+    def __init__(self, key, captures, parent=None):
         self.key = key
         self.captures = tuple(captures)
+        self.parent = parent        # name of the MIR function that created it (macro-generated closures share spans)
 
     def __repr__(self):
         return "<closure %s %d caps>" % (self.key, len(self.captures))
@@ -223,7 +224,9 @@ def undo(mark):
 class Ctx:
     def __init__(self, timeout_ms=30000, seed=0):
         self.z = z3.Solver()
-        self.z.set("timeout", min(timeout_ms, int(os.environ.get("VERIF_Z3_TIMEOUT_MS", "8000"))))
+        self.timeout_ms = min(timeout_ms, int(os.environ.get("VERIF_Z3_TIMEOUT_MS", "8000")))
+        self.fp_feasibility_ms = int(os.environ.get("VERIF_Z3_FP_FEAS_MS", "2500"))
+        self.z.set("timeout", self.timeout_ms)
         try:
             self.z.set("random_seed", seed % (2**31))
         except Exception:
@@ -304,6 +307,45 @@ class Ctx:
         return z3.unknown
 
     def feasible(self):
+        """light-weight: an undecided feasibility query is treated as feasible (over-approximation: sound for every
+        'holds' verdict, and a later sat model of the whole path condition is still a real model)"""
+        t = time.time()
+        self.stats["checks"] += 1
+        fp = self._has_fp()
+        if fp:
+            self.z.set("timeout", self.fp_feasibility_ms)
+        r = self.z.check()
+        if fp:
+            self.z.set("timeout", self.timeout_ms)
+        self._last_model = None
+        if r == z3.unknown and not fp:
+            s = z3.Solver()
+            s.set("timeout", 10000)
+            s.set("random_seed", 11)
+            s.add(*self.z.assertions())
+            r = s.check()
+        self.stats["solver_s"] += time.time() - t
+        if r == z3.unknown:
+            self.stats["assumed_feasible"] = self.stats.get("assumed_feasible", 0) + 1
+            return True
+        return r == z3.sat
+
+    def check_light(self):
+        t = time.time()
+        self.stats["checks"] += 1
+        r = self.z.check()
+        self._last_model = None
+        self.stats["solver_s"] += time.time() - t
+        return r
+
+    def _has_fp(self):
+        for lv in self.levels[-3:]:
+            for c in lv:
+                if "fp." in c.sexpr():
+                    return True
+        return False
+
+    def feasible_strict(self):
         r = self.check()
         if r == z3.unknown and os.environ.get("VERIF_DUMP_UNKNOWN"):
             open(os.path.join(os.environ["VERIF_DUMP_UNKNOWN"], "unknown_%d.smt2" % self.stats["checks"]), "w").write(self.smt2())
@@ -332,6 +374,16 @@ def is_z3(v):
 
 def zint(v):
     return z3.IntVal(v) if isinstance(v, int) else v
+
+
+def i32_to_f32(t):
+    """i32 -> binary32, round to nearest even; through a 32-bit vector (what z3 decides well)"""
+    if isinstance(t, int):
+        return z3.fpToFP(z3.RNE(), z3.RealVal(t), z3.Float32())
+    t = z3.simplify(t)
+    if z3.is_int_value(t):
+        return z3.fpToFP(z3.RNE(), z3.RealVal(t.as_long()), z3.Float32())
+    return z3.fpSignedToFP(z3.RNE(), z3.Int2BV(t, 32), z3.Float32())
 
 
 def wrap(v, lo, hi):
@@ -476,7 +528,7 @@ class Executor:
                 for fn in lst:
                     m = re.search(r"\{closure@[^}]*\}", fn.params[0][1]) if fn.params else None
                     if m:
-                        self.closure_index[m.group(0)] = fn
+                        self.closure_index.setdefault(m.group(0), []).append(fn)
         from . import models
         models.install(self)
 
@@ -744,7 +796,10 @@ class Executor:
         if o.startswith("copy ") or o.startswith("move "):
             return self.read_place(fr, parse_place(o[5:]))
         if o.startswith("const "):
-            return self.const(o[6:].strip())
+            v = self.const(o[6:].strip())
+            if isinstance(v, Closure):
+                v.parent = fr["__fn"].v
+            return v
         return self.read_place(fr, parse_place(o))
 
     def const(self, c):
@@ -850,7 +905,7 @@ class Executor:
             caps = []
             if m.group(3):
                 caps = [self.operand(fr, f.split(":", 1)[1]) for f in split_top(m.group(3))]
-            return Closure(m.group(1), caps)
+            return Closure(m.group(1), caps, fr["__fn"].v)
         # enum variant / struct aggregates
         if rv.endswith("}") and "{" in rv and not rv.startswith("{"):
             j = _top_level_brace(rv)
@@ -1164,9 +1219,12 @@ class Executor:
         """invoke a closure / fn item value with already-unpacked arguments"""
         c = self.deref(clo) if isinstance(clo, Ref) else clo
         if isinstance(c, Closure):
-            fn = self.closure_index.get(c.key)
-            if fn is None:
-                raise Unsupported("closure body not found " + c.key)
+            cands = self.closure_index.get(c.key) or []
+            if len(cands) > 1:
+                cands = [x for x in cands if c.parent and x.name.startswith(c.parent + "::{closure")]
+            if len(cands) != 1:
+                raise Unsupported("closure body not found or ambiguous: %s created in %s" % (c.key, c.parent))
+            fn = cands[0]
             first = fn.params[0][1]
             a0 = clo if isinstance(clo, Ref) else (Ref(Cell(c)) if first.startswith("&") else c)
             if not first.startswith("&") and isinstance(a0, Ref):
@@ -1188,6 +1246,7 @@ class Executor:
         self.inlined.add(f.name)
         fr = {name: Cell(None, name) for name in f.locals}
         fr["_0"] = fr.get("_0") or Cell(None, "_0")
+        fr["__fn"] = Cell(f.name)
         if len(args) != len(f.params):
             raise Unsupported("arity mismatch calling %s: %d args for %d params" % (f.name, len(args), len(f.params)))
         for (pname, _), a in zip(f.params, args):
@@ -1225,6 +1284,8 @@ class Executor:
                 yield fr["_0"].v
                 return
             if t == "unreachable":
+                if self.ctx.check() == z3.unsat:
+                    return      # the path was only assumed feasible
                 raise Unsupported("reached `unreachable` in %s %s" % (f.name, bb))
             if t.startswith("goto -> "):
                 bb = t[8:].strip()
